@@ -27,3 +27,10 @@ func VerifNewStage(id string, pool concurrent.Pool, planFn func() PlanNode, next
 func (s *VerifStage) Identifier() string  { return s.ID }
 func (s *VerifStage) Plan() PlanNode      { return s.PlanFn() }
 func (s *VerifStage) NextStages() []Stage { return s.NextFn() }
+
+// VerifNewStageCtx is VerifNewStage with the stage's context supplied (a task context that may be done)
+func VerifNewStageCtx(id string, pool concurrent.Pool, ctx context.Context, planFn func() PlanNode, nextFn func() []Stage) *VerifStage {
+	s := &VerifStage{ID: id, PlanFn: planFn, NextFn: nextFn}
+	s.baseStage = baseStage{ctx: ctx, execPool: pool}
+	return s
+}
